@@ -190,7 +190,8 @@ func runC12Deterministic(c *core.Ctx) {
 			if point == "backup:captured" {
 				n = 5 + rng.Intn(60)
 			}
-			for i := 0; i < n; i++ {
+			// bounded: every copied segment triggers this hook, and every write may add a segment for the next backup
+			for i := 0; i < n && during < 150; i++ {
 				if !write() {
 					return
 				}
